@@ -157,9 +157,13 @@ def c03(tier):
         cfgs.append((m[0], Config([("as_str", {"mode": m}), "Debug", "Display", "IntoStr"])))
     cfgs.append(("n", Config(["as_str", "names", "Debug", "Display", "IntoStr"])))   # names steers auto
     cfgs.append(("d", Config(["Debug"])))   # auto-enabled private as_str only
+    # co-enabled features that bring their own helper tables (seed C03-r6m2: as_str re-used the enum table of from_str / iter when present)
+    cfgs.append(("f", Config([("as_str", {"mode": "table"}), ("from_str", {"mode": "table"}), "Display"])))
+    cfgs.append(("i", Config([("as_str", {"mode": "table"}), ("iter", {"mode": "table"}), "range", "IntoStr"])))
     subs = mk_subjects(decls, cfgs) + sorted_subjects(cfgs[1][1].feats, "z") + sorted_subjects(cfgs[0][1].feats, "y")
     subs += sorted_name_subjects(cfgs[1][1].feats, "x") + sorted_name_subjects(cfgs[3][1].feats, "w")
     explore(res, "%s/c03" % tier, subs, phases=["str"])
+    raw_variant_probe(res, ("as",))
     finish_common(res, decls, subs,
                   "states = (enum, variant) pairs in every as_str mode; transitions = as_str/Display/Debug/IntoStr calls; "
                   "non-trivial = variants carrying a rename attribute")
@@ -192,6 +196,7 @@ def c04(tier):
         subs += sorted_name_subjects(c.feats, "x%s_" % suf)
     subs += sorted_name_subjects([("from_str", {}), "names"], "xn_") + sorted_name_subjects([("FromStr", {}), "names", "as_str"], "xm_")
     merged = explore(res, "%s/c04" % tier, subs, phases=["from_str"])
+    raw_variant_probe(res, ("from",))
     # with duplicate names the same variant must be chosen in every mode: compare transcript hashes per enum
     compare_transcripts(res, merged, subs, decl_key, "mode-dependent-from_str",
                         items=("from_str", "FromStr::from_str"))
@@ -393,6 +398,7 @@ def c08(tier):
     subs += sorted_subjects(["names"], "y", bounds=dict(x1_depth=2, x2_extra=1, x2_cap=5))
     subs += sorted_name_subjects(["names", "iter", "as_str", "from_str"], "x", bounds=dict(x1_depth=2, x2_extra=1, x2_cap=5))
     explore(res, "%s/c08" % tier, subs, phases=["names"])
+    raw_variant_probe(res, ("names", "as"))
     finish_common(res, decls, subs,
                   "states = operation histories on names(); transitions = operations, observations, consumers, zip/as_str alignment; "
                   "non-trivial = histories after which the remaining list is shorter")
@@ -401,3 +407,99 @@ def c08(tier):
 
 
 CHECKS = {"C01": c01, "C03": c03, "C04": c04, "C05": c05, "C06": c06, "C07": c07, "C08": c08}
+
+
+# ---------------------------------------------------------------------------------- raw-identifier variants
+# The documentation says "the name of the variant"; for a variant written `r#type` both "r#type" (the unchanged tree) and "type"
+# are defensible, so no spelling is demanded - only that EVERY item, in EVERY mode, uses the same one (seed C08-r6m2: the name table
+# unrawed the identifier, the match arms did not).
+RAW_CFGS = [
+    ("auto", "as_str, from_str, Debug, Display, FromStr, IntoStr, names, iter"),
+    ("table", "as_str(mode = \"table\"), from_str(mode = \"table\"), FromStr(mode = \"table\"), Debug, Display, IntoStr, names, iter(mode = \"table\")"),
+    ("match", "as_str(mode = \"match\"), from_str(mode = \"match\"), FromStr(mode = \"match\"), Debug, Display, IntoStr, names, iter"),
+    ("mixed1", "as_str(mode = \"match\"), from_str(mode = \"table\"), FromStr(mode = \"match\"), Debug, Display, IntoStr, names, iter"),
+    ("mixed2", "as_str(mode = \"table\"), from_str(mode = \"match\"), FromStr(mode = \"table\"), Debug, Display, IntoStr, names, iter"),
+    ("solo_match", "as_str(mode = \"match\"), from_str(mode = \"match\"), FromStr(mode = \"match\"), Debug, Display, IntoStr"),
+    ("solo_auto", "as_str, from_str"),
+]
+RAW_BODIES = [("g", [("r#type", 1, None), ("Plain", 2, None), ("r#fn", 3, None)]),
+              ("h", [("r#type", 1, None), ("Plain", 2, None), ("r#fn", 9, None), ("r#match", 10, "r#x")])]
+
+
+def _raw_body(vs):
+    return ", ".join(("#[enum_tools(rename = \"%s\")] " % r if r else "") + "%s = %d" % (i, v) for i, v, r in vs)
+
+
+def raw_variant_probe(res, prop_items):
+    """prop_items: which observations this property owns ('as', 'from', 'names')."""
+    import e2
+    mods, calls = [], []
+    for bk, vs in RAW_BODIES:
+        body = _raw_body(vs)
+        idents = [i for i, _v, _r in vs]      # declared in ascending value order: names().nth(k) belongs to the k-th variant
+        for ck, attr in RAW_CFGS:
+            m = "m_%s_%s" % (bk, ck)
+            mods.append("mod %s { use enum_tools::EnumTools;\n #[derive(Clone, Copy, EnumTools)] #[enum_tools(%s)] #[repr(i8)] pub enum E { %s } }" % (m, attr, body))
+            has = lambda f: (f + "(") in attr or (", " + f + ",") in (", " + attr + ",")
+            for i, idn in enumerate(idents):
+                plain = idn[2:] if idn.startswith("r#") else idn
+                v = "%s::E::%s" % (m, idn)
+                pre = "%s|%s|" % (m, idn)
+                if has("as_str"):
+                    calls.append('println!("%sas_str|{}", %s.as_str());' % (pre, v))
+                if has("Display"):
+                    calls.append('println!("%sDisplay|{}", %s);' % (pre, v))
+                if has("Debug"):
+                    calls.append('println!("%sDebug|{:?}", %s);' % (pre, v))
+                if has("IntoStr"):
+                    calls.append('println!("%sIntoStr|{}", <&str>::from(%s));' % (pre, v))
+                if has("names"):
+                    calls.append('println!("%snames|{}", %s::E::names().nth(%d).unwrap());' % (pre, m, i))
+                for cand in sorted({plain, "r#" + plain, "r#x"}):
+                    if has("from_str"):
+                        calls.append('println!("%sfrom_str:%s|{}", matches!(%s::E::from_str("%s"), Some(x) if x as i8 == %s as i8));' % (pre, cand, m, cand, v))
+                    if has("FromStr"):
+                        calls.append('println!("%sFromStr:%s|{}", matches!("%s".parse::<%s::E>(), Ok(x) if x as i8 == %s as i8));' % (pre, cand, cand, m, v))
+    src = "#![allow(warnings)]\n" + "\n".join(mods) + "\nfn main() {\n" + "\n".join("  " + c for c in calls) + "\n}\n"
+    ok, verdict, rc, so, se = e2.run_program(src)
+    res.states += len(mods)
+    res.transitions += len(calls)
+    if not ok:
+        res.violation({"kind": "does-not-compile", "what": "raw-identifier variants", "errors": [l for l in verdict.splitlines() if l.startswith("error")][:3]},
+                      {"rustc": verdict[-2000:]}, {"repro.rs": src})
+        return
+    if rc != 0:
+        res.violation({"kind": "abort", "what": "raw-identifier variants", "stderr": se[-300:]}, {"stdout": so[-2000:]}, {"repro.rs": src})
+        return
+    res.validated += len(mods)
+    obs = {}     # (body, ident) -> {observation kind -> {module: value}}
+    for line in so.splitlines():
+        p = line.split("|")
+        if len(p) != 4:
+            continue
+        m, idn, kind, val = p
+        obs.setdefault((m.split("_")[1], idn), {}).setdefault(kind, {})[m] = val
+    own = {"as": ("as_str", "Display", "Debug", "IntoStr"), "names": ("names",), "from": ("from_str", "FromStr")}
+    for (bk, idn), kinds in sorted(obs.items()):
+        names_seen = {}
+        for k in ("as_str", "Display", "Debug", "IntoStr", "names"):
+            for m, val in kinds.get(k, {}).items():
+                names_seen.setdefault(val, []).append("%s in %s" % (k, m))
+        res.outcome("raw-variant:names-agree" if len(names_seen) == 1 else "raw-variant:names-differ")
+        if len(names_seen) != 1:
+            mine = any(w.split(" ")[0] in sum((own[i] for i in prop_items), ()) for ws in names_seen.values() for w in ws)
+            if mine:
+                res.violation({"kind": "name-items-disagree", "variant": idn, "enum": _raw_body(dict(RAW_BODIES)[bk])},
+                              {"observed": {k: v[:4] for k, v in names_seen.items()}}, {"repro.rs": src})
+            continue
+        the_name = next(iter(names_seen))
+        if "from" in prop_items:
+            for k, per in kinds.items():
+                if ":" not in k:
+                    continue
+                cand = k.split(":", 1)[1]
+                for m, val in per.items():
+                    want = "true" if cand == the_name else "false"
+                    if val != want:
+                        res.violation({"kind": "from_str-disagrees-with-name", "variant": idn, "input": cand, "name": the_name, "item": k.split(":")[0], "module": m},
+                                      {"observed": val, "expected": want}, {"repro.rs": src})
